@@ -404,6 +404,17 @@ pub fn archives(seed: u64, thorough: bool) -> Vec<Arch> {
         dd.dd = Dd::Sig32;
         let spec = Spec { entries: vec![e("ok"), dd, e("after")], ..Default::default() };
         add(format!("builder:dd-second:m{m}"), build(&spec).0, Some(1), spec.to_json(), None);
+        // unsupported: every data-descriptor flavour, with and without a (zeroed) local ZIP64 block and 0xFFFFFFFF placeholders
+        for (k, d) in [Dd::Sig32, Dd::NoSig32, Dd::Sig64, Dd::NoSig64].into_iter().enumerate() {
+            for z in [false, true] {
+                let mut dd = e("dd");
+                dd.dd = d;
+                dd.zip64_local = z;
+                dd.zip64_central = if z { 3 } else { 0 };
+                let spec = Spec { entries: vec![dd, e("after")], ..Default::default() };
+                add(format!("builder:dd-first:{k}:zip64-local-{z}:m{m}"), build(&spec).0, Some(0), spec.to_json(), None);
+            }
+        }
         // unsupported: encrypted first
         let mut en = e("enc");
         en.enc = Enc::ZipCrypto { pw: b"pw".to_vec(), infozip: false };
